@@ -61,6 +61,11 @@ def c06_family(tier, sd=0):
     fam.append(flat_schema([("i", 8), ("i", 8), ("i", 16), ("i", 32)]))
     fam.append(flat_schema([("u", 8)], mid=2047))
     fam.append(flat_schema([("u", 8)], mid=0))
+    # two messages of one device whose <message>_<field> spellings coincide (Foo.bar_baz / FooBar.baz)
+    fam.append(Schema(structs=[("Foo", [("bar_baz", 0, ("u", 8)), ("x", 1, ("u", 8))]),
+                               ("FooBar", [("pad", 0, ("u", 16)), ("baz", 1, ("u", 8))])], top="Foo",
+                      impls=[("can", "Foo", None, {"id": 0x70, "device": "ecu"}, []),
+                             ("can", "FooBar", None, {"id": 0x71, "device": "ecu"}, [])]))
     if tier == "thorough":
         rng = random.Random(sd)
         kinds = [("u", 1), ("u", 4), ("u", 11), ("i", 2), ("i", 6), ("i", 12), ("i", 20), ("u", 24), ("f32",), ("enum", "E5")]
@@ -220,7 +225,7 @@ def c06_case(args):
             vals.append(llsym.FP(v, K) if ety.k == "fp" else v)
         value = {fn: zvars[fn][0] for fn, _, _ in fields}
         exp_word = refspec.canon_word64(schema, ("struct", top), value)
-        eng = Engine(timeout_ms=60000 if tier == "quick" else 300000, max_paths=500)
+        eng = Engine(timeout_ms=240000 if tier == "quick" else 600000, max_paths=500)
         m = llsym.Machine(mod)
         msgp = m.alloc(llsym.sizeof(mod, msg_ty))
         outp = m.alloc(16)
@@ -260,7 +265,7 @@ def c06_case(args):
             res["inconclusive"].append(f"{desc}|encode: engine limit: {e}")
         finish_engine(res, eng)
         # ---- decode: arbitrary frame
-        eng = Engine(timeout_ms=60000 if tier == "quick" else 300000, max_paths=500)
+        eng = Engine(timeout_ms=240000 if tier == "quick" else 600000, max_paths=500)
         m = llsym.Machine(mod)
         fp_ = m.alloc(16)
         outp = m.alloc(llsym.sizeof(mod, msg_ty))
@@ -450,7 +455,7 @@ def c19_case(args):
         # expected frames: direct encode of the (symbolic) device contents
         m0, _, dev0 = machine()
         outp = m0.alloc(16)
-        engx = Engine(timeout_ms=60000)
+        engx = Engine(timeout_ms=240000)
         exp_frames = []
         try:
             for i in range(n):
@@ -469,7 +474,7 @@ def c19_case(args):
 
         def check_run(mode):
             """mode 'step': one call from an arbitrary state; 'bmc': k calls from the C initial state."""
-            eng = Engine(timeout_ms=60000 if tier == "quick" else 300000, max_paths=20000)
+            eng = Engine(timeout_ms=240000 if tier == "quick" else 600000, max_paths=20000)
             m, sent, dev = machine()
             # same device bytes as the reference encode (variables are shared by name)
             snap = dict(m.mem)
